@@ -93,6 +93,12 @@ func (t *SimpleTimer) run() (bool, error) {
 
 	next := t.intervalFunc(t.called + 1)
 
+	// NOTE timer can be stopped while intervalFunc is running; checks again
+	// right before callback.
+	if ctx.Err() != nil {
+		return false, ctx.Err()
+	}
+
 	defer func() {
 		t.expiredLocked.SetValue(time.Now().Add(next))
 
